@@ -99,6 +99,9 @@ func tamper(kind string, secret *[]byte, vvec *[][]byte, shareFor uint64, otherI
 		*secret, *vvec = shareAt(sks, otherID), v
 	case "commitment-altered":
 		v := append([][]byte{}, (*vvec)...)
+		if len(v) == 0 { // an earlier fault on the same message emptied the vector: nothing left to alter
+			return
+		}
 		v[len(v)-1] = randomPoint()
 		*vvec = v
 	case "vector-short-consistent":
@@ -113,6 +116,9 @@ func tamper(kind string, secret *[]byte, vvec *[][]byte, shareFor uint64, otherI
 		*secret, *vvec = shareAt(sks, shareFor), v
 	case "vector-truncated":
 		v := append([][]byte{}, (*vvec)...)
+		if len(v) == 0 {
+			return
+		}
 		*vvec = v[:len(v)-1]
 	case "vector-extended":
 		*vvec = append(append([][]byte{}, (*vvec)...), randomPoint())
@@ -256,6 +262,9 @@ func run(c *Case) (*outcome, *vkit.Violation, error) {
 	o.success = resp.GetState() == pb.ResponseState_SUCCEEDED
 	o.message = resp.GetMessage()
 	where := fmt.Sprintf("generation n=%d t=%d ids %v with faults %v (delivered %v)", c.N, c.T, c.IDs, c.Faults, o.delivered)
+	if len(cl.Net.HookPanics) > 0 {
+		return o, nil, fmt.Errorf("a hook of the check itself panicked: %s", cl.Net.HookPanics[0])
+	}
 	if len(cl.Net.Panics) > 0 {
 		return o, vkit.Violf("instance-crashed."+firstKind(c), "%s: %v", where, cl.Net.Panics), nil
 	}
